@@ -169,6 +169,17 @@ def check_dataclass(t, cls, n_pos, kws, tag=""):
         t.violation("convert_call_to_dict:ensures result is a Dict", "not lowered", key, expected,
                     ast.unparse(got_node), rp)
         return
+    # the spec function of the deductive proof (lower_sugar with its record-constructor case), run
+    # natively, against the real code - and its refusal predicate against Python's own binding
+    import sugar as spec_sugar
+    import specrt
+    t.contract("resolve_syntatic_sugar == lower_sugar (spec, native) on record constructors")
+    want_node = spec_sugar.lower_sugar(copy.deepcopy(lam)).body
+    if not specrt.same(got_node, want_node) or spec_sugar.dc_bad(call, fields):
+        t.violation("syntax_transformer.visit_Call:ensures same(result, lower_sugar(node))",
+                    "the lowering differs from the spec function the proof refers to", key,
+                    ast.unparse(want_node), ast.unparse(got_node), rp)
+        return
     got = {ast.literal_eval(k): ast.unparse(v) for k, v in zip(got_node.keys, got_node.values)}
     if got != expected or list(got.keys()) != list(expected.keys()):
         t.violation("convert_call_to_dict:ensures keys/values == Signature.bind(call), field order",
